@@ -734,6 +734,8 @@ func ruleSharedWrite(p *Program, r *Result) {
 				case *ssa.Call:
 					if bi, ok := x.Common().Value.(*ssa.Builtin); ok && bi.Name() == "delete" {
 						addr, what = x.Common().Args[0], "map delete"
+					} else if s, ok := appendInPlace(in); ok {
+						addr, what = s, "append into the backing array of a resliced slice"
 					} else if f := x.Common().StaticCallee(); f != nil && f.Signature.Recv() != nil && f.Blocks == nil && len(x.Common().Args) > 0 {
 						// library method with pointer receiver on a non-local object
 						if _, isPtr := f.Signature.Recv().Type().(*types.Pointer); isPtr {
@@ -756,6 +758,9 @@ func ruleSharedWrite(p *Program, r *Result) {
 				}
 				if kind == rootForeign && freshCallResult(p, root, 3) {
 					continue // a map/slice/object freshly made by the callee for this call
+				}
+				if fv, ok := root.(*ssa.FreeVar); ok && privateCapturedCell(fn, fv) {
+					continue // the closure's own captured cell: one per closure instance, not handed to a goroutine
 				}
 				if kind == rootForeign {
 					// a write through a parameter: judged at the call sites (bounded lifting)
@@ -1203,6 +1208,12 @@ func ruleAtomicReload(p *Program, r *Result) {
 					}
 				case inCase:
 					replacedInCase = true
+					// ... on every path through the case: the incoming value is not a merge that can still
+					// be the old one
+					if phiReaches(e, ph) {
+						good = false
+						why = append(why, ph.Comment+" keeps its previous value on some path through the configuration case")
+					}
 				default:
 					// initial value from before the loop is fine; a new value from another case is not
 					if ph.Block().Dominates(pred) {
@@ -1225,4 +1236,79 @@ func ruleAtomicReload(p *Program, r *Result) {
 	if !found {
 		r.undecided("R-ATOMICRELOAD", "update-loop", "-", "UNRESOLVED: no select receiving a config.ServerConfig in the loader")
 	}
+}
+
+// phiReaches: v is target, or a phi one of whose (transitive) alternatives is target.
+func phiReaches(v ssa.Value, target *ssa.Phi) bool {
+	seen := map[ssa.Value]bool{}
+	var walk func(x ssa.Value) bool
+	walk = func(x ssa.Value) bool {
+		if x == ssa.Value(target) {
+			return true
+		}
+		if seen[x] {
+			return false
+		}
+		seen[x] = true
+		if ph, ok := x.(*ssa.Phi); ok {
+			for _, e := range ph.Edges {
+				if walk(e) {
+					return true
+				}
+			}
+		}
+		return false
+	}
+	return walk(v)
+}
+
+
+// privateCapturedCell: fv is a variable of the enclosing call captured by closure fn, the cell is a local of
+// that call (parameter spill or local), and the closure value is only returned or passed on as an argument
+// by the enclosing function - never started as a goroutine there and never stored into a field or global.
+// Each call of the enclosing function then has its own cell and its own closure.
+func privateCapturedCell(fn *ssa.Function, fv *ssa.FreeVar) bool {
+	parent := fn.Parent()
+	if parent == nil {
+		return false
+	}
+	idx := -1
+	for i, f := range fn.FreeVars {
+		if f == fv {
+			idx = i
+		}
+	}
+	if idx < 0 {
+		return false
+	}
+	n := 0
+	for _, b := range parent.Blocks {
+		for _, in := range b.Instrs {
+			mc, ok := in.(*ssa.MakeClosure)
+			if !ok || mc.Fn != ssa.Value(fn) {
+				continue
+			}
+			n++
+			if _, isAlloc := mc.Bindings[idx].(*ssa.Alloc); !isAlloc {
+				return false
+			}
+			for _, rf := range refsOf(mc) {
+				switch x := rf.(type) {
+				case *ssa.Return, *ssa.DebugRef:
+				case *ssa.ChangeType, *ssa.MakeInterface:
+					for _, r2 := range refsOf(x.(ssa.Value)) {
+						switch r2.(type) {
+						case *ssa.Return, *ssa.DebugRef, *ssa.Call:
+						default:
+							return false
+						}
+					}
+				case *ssa.Call:
+				default:
+					return false
+				}
+			}
+		}
+	}
+	return n > 0
 }
